@@ -111,6 +111,7 @@ func cmdCheck(args []string) int {
 	var funcs []string
 	var outside []string
 	notes := map[string]bool{}
+	usedFC := map[*FuncContract]bool{}
 	trusted := []string{}
 	for _, k := range sortedKeys(P.contracts) {
 		fc := P.contracts[k]
@@ -159,6 +160,9 @@ func cmdCheck(args []string) int {
 		funcs = append(funcs, fmt.Sprintf("%s (%s mode)", fx.key, fx.mode))
 		for n := range fx.notes {
 			notes[fx.key+": "+n] = true
+		}
+		for ufc := range fx.usedFC {
+			usedFC[ufc] = true
 		}
 		for _, vc := range fvcs {
 			if *prop != "" && len(vc.Props) > 0 && !contains(vc.Props, *prop) {
@@ -364,7 +368,7 @@ func cmdCheck(args []string) int {
 	// evidence
 	if !*noEvidence && *prop != "" && *only == "" && *onlyOb == "" {
 		var assumptions []string
-		assumptions = append(assumptions, P.assumptionList(*prop)...)
+		assumptions = append(assumptions, P.assumptionList(*prop, usedFC, funcs)...)
 		assumptions = append(assumptions, trusted...)
 		for _, n := range sortedKeysB(notes) {
 			assumptions = append(assumptions, n)
@@ -412,28 +416,49 @@ func truncate(s string, n int) string {
 	return s
 }
 
-// assumptionList: mechanical scan of axioms, externs, ifaces relevant to a property.
-func (P *Prog) assumptionList(prop string) []string {
+// assumptionList: mechanical scan of what this run relied on without proving it here.
+func (P *Prog) assumptionList(prop string, used map[*FuncContract]bool, verified []string) []string {
 	var out []string
 	for _, lm := range P.lemmaList {
 		if lm.Axiom {
 			out = append(out, fmt.Sprintf("axiom %s (%s)", lm.Name, lm.Reason))
 		}
 	}
-	for _, k := range sortedKeys(P.externs) {
-		out = append(out, "extern contract assumed: "+k)
+	var ext, ifc, tr, other []string
+	for fc := range used {
+		switch {
+		case fc.Kind == "extern":
+			ext = append(ext, fc.Key)
+		case fc.Kind == "iface":
+			ifc = append(ifc, fc.Key)
+		case fc.Kind == "funcparam":
+			ifc = append(ifc, "function parameter "+fc.Key)
+		case fc.Trusted != "":
+			tr = append(tr, fc.Key+" ("+fc.Trusted+")")
+		case !contains(fc.Props, prop):
+			other = append(other, fc.Key+" (props "+strings.Join(fc.Props, ",")+")")
+		}
 	}
-	for _, k := range sortedKeys(P.ifaces) {
-		out = append(out, "interface contract assumed for caller-supplied implementations: "+k)
+	sort.Strings(ext)
+	sort.Strings(ifc)
+	sort.Strings(tr)
+	sort.Strings(other)
+	for _, k := range ext {
+		out = append(out, "library contract assumed: "+k)
 	}
-	for _, sf := range P.specs {
-		_ = sf
+	for _, k := range ifc {
+		out = append(out, "interface/callback contract assumed of caller-supplied implementations: "+k)
+	}
+	for _, k := range tr {
+		out = append(out, "trusted summary, body not verified: "+k)
+	}
+	for _, k := range other {
+		out = append(out, "contract used here, verified under another property: "+k)
 	}
 	out = append(out, "string/slice lengths and allocation sizes are at most 2^62 (allocator never exhausts memory)",
-		"Str theory axioms, UTF-8 iteration axioms (prelude in engine/smt.go, engine/discharge.go)")
+		"Str theory and UTF-8 iteration axioms, heap closedness (stored references denote allocated memory), go/ssa lowering (prelude in engine/smt.go, engine/discharge.go)")
 	return out
 }
-
 
 // cmdValidateExterns runs every assumed pure library contract with scalar/string parameters against
 // the real library on an enumeration of small inputs (keeps the prelude honest; thorough tier).
